@@ -325,4 +325,212 @@ theorem walk_layout_mixed_mkEnv (a : Arch) (hx : a ≠ .x86) (os : Os) (w : Worl
   rw [mkEnvW_eq_mkEnv hx os w wins mem hn] at this
   exact this
 
+/-! ## non-vacuity: one concrete stack per context kind / mode that alternates techniques
+
+  One module `m` at `0x400000` with one FUNC `f` (`0x400010 … 0x40080f`) and ONE canonical STACK CFI
+  record covering part of it, so that a return address inside the record is unwound by CFI and one
+  outside it by the frame pointer or by scanning. `PreW` is decided on every example
+  (`decide +kernel`), `walk_layout_mixed` applied to it, and the model evaluated on it gives the
+  generated chain. (Range tables of one entry each: `List.mergeSort` on two or more elements does
+  not reduce in the kernel.) -/
+
+/-- little-endian bytes of a `p`-byte word -/
+def exLe (p v : Nat) : List UInt8 := (List.range p).map fun i => UInt8.ofNat (v / 256 ^ i % 256)
+
+/-- a stack memory from its words -/
+def exMem (base p : Nat) (ws : List Nat) : Mem := { base := base, bytes := (ws.flatMap (exLe p)).toArray }
+
+def exWorld (rule : String) : World :=
+  { mods := [{ base := 0x400000, size := 0x1000, name := "m" }],
+    syms := [some { funcs := [{ addr := 0x10, size := 0x800, psize := 0, name := "f" }],
+                    cfis := [{ addr := 0x100, size := 0x100, init := rule, adds := [] }] }] }
+
+/-! ### x86-64: scan → STACK CFI (after a scanned frame only `rip` / `rsp` are valid) → frame pointer
+
+  The context has an invalid `%rbp`: the first caller is found by scanning (one junk word, then
+  `0x400120`). That address is covered by the record `.cfa: $rsp 32 + .ra: .cfa -8 + ^ $rbp: .cfa -16 + ^`:
+  the next frame comes from CFI although only `rip` / `rsp` are valid in the callee, and gets a
+  valid `%rbp = 0x8040` from the frame. Its caller has no record and is found through the
+  frame-pointer record at `0x8040`; the outermost frame's `%rbp` points at `(0, 0)`. -/
+
+def exA64W : World := exWorld ".cfa: $rsp 32 + .ra: .cfa -8 + ^ $rbp: .cfa -16 + ^"
+def exA64Mem : Mem := exMem 0x8000 8
+  [1, 0x400120, 0, 0, 0x8040, 0x400500, 0, 0, 0x8060, 0x400600, 0, 0, 0, 0, 0, 0]
+def exA64Ctx : Ctx := { ip := 0x400300, sp := 0x8000, rest := [("rbp", 0x1234)], valid := some ["rip", "rsp"] }
+def exA64Chain : List Exp :=
+  [ { ret := 0x400120, sp := 0x8010, fp := none, tech := "scan" },
+    { ret := 0x400500, sp := 0x8030, fp := some 0x8040, tech := "cfi" },
+    { ret := 0x400600, sp := 0x8050, fp := some 0x8060, tech := "fp" } ]
+abbrev exA64Env : Env := mkEnvW .amd64 .other exA64W [[]] exA64Mem
+
+theorem exA64_pre : PreW exA64W [[]] exA64Env .amd64 .other exA64Mem exA64Ctx exA64Chain = true := by
+  decide +kernel
+
+example : ∃ frames, walk exA64Env (some exA64Mem) exA64Ctx =
+      symbolise exA64Env (Frame.ofCtx exA64Ctx .context) :: frames ∧
+    All2 (fun fr e => ∃ f', fr = symbolise exA64Env f' ∧ FrameIsA .amd64 (techTrust e) e f') frames exA64Chain :=
+  walk_layout_mixed .amd64 .other exA64W [[]] exA64Mem exA64Ctx exA64Chain exA64_pre
+
+example : (walk exA64Env (some exA64Mem) exA64Ctx).map
+      (fun f => (f.trust, f.ctx.ip, f.ctx.sp, f.instruction, f.ctx.get .amd64 "rbp")) =
+    [(.context, 0x400300, 0x8000, 0x400300, none), (.scan, 0x400120, 0x8010, 0x40011f, none),
+     (.cfi, 0x400500, 0x8030, 0x4004ff, some 0x8040), (.fp, 0x400600, 0x8050, 0x4005ff, some 0x8060)] := by
+  decide +kernel
+
+/-! ### x86: STACK WIN → STACK CFI → frame pointer → scan (all four techniques)
+
+  The context frame is covered by a frame-data record (standard prologue program). Its caller
+  (`0x400250`) is covered by the STACK CFI record `.cfa: $esp 12 + .ra: .cfa -4 + ^ $ebx: .cfa -8 + ^`
+  — reached through `SymbolFile::walk_frame` after STACK WIN yields nothing: `%ebx = 0x99` from the
+  frame, `%ebp = 0x8030` forwarded. The next caller has no record and a live `%ebp` (record at
+  `0x8030`, saved `%ebp` 0); the last one is found by scanning (one junk word, then `0x400400`). -/
+
+def exX86W : World := exWorld ".cfa: $esp 12 + .ra: .cfa -4 + ^ $ebx: .cfa -8 + ^"
+def exX86Wins : List (List Win.Rec) :=
+  [[{ ty := '4', addr := 0x10, size := 0x80, par := 0, sav := 0, loc := 8, hp := '1',
+      rest := "$T0 $ebp = $eip $T0 4 + ^ = $ebp $T0 ^ = $esp $T0 8 + =".toList }]]
+def exX86Mem : Mem := exMem 0x8000 4
+  [0, 0, 0, 0, 0x8030, 0x400150, 0, 0x99, 0x400900, 0, 0, 0, 0, 0x400a00, 1, 0x400400, 0, 0, 0, 0]
+def exX86Ctx : Ctx := { ip := 0x400050, sp := 0x8000, rest := [("ebp", 0x8010), ("ebx", 7)] }
+def exX86Chain : List Exp :=
+  [ { ret := 0x400150, sp := 0x8018, fp := some 0x8030, tech := "win" },
+    { ret := 0x400900, sp := 0x8024, fp := some 0x8030, tech := "cfi", regs := [("ebx", 0x99)] },
+    { ret := 0x400a00, sp := 0x8038, fp := some 0, tech := "fp" },
+    { ret := 0x400400, sp := 0x8040, fp := none, tech := "scan" } ]
+abbrev exX86Env : Env := mkEnvW .x86 .windows exX86W exX86Wins exX86Mem
+
+theorem exX86_pre : PreW exX86W exX86Wins exX86Env .x86 .windows exX86Mem exX86Ctx exX86Chain = true := by
+  decide +kernel
+
+example : ∃ frames, walk exX86Env (some exX86Mem) exX86Ctx =
+      symbolise exX86Env (Frame.ofCtx exX86Ctx .context) :: frames ∧
+    All2 (fun fr e => ∃ f', fr = symbolise exX86Env f' ∧ FrameIs (techTrust e) e f') frames exX86Chain :=
+  walk_layout_mixed_x86 .windows exX86W exX86Wins exX86Mem exX86Ctx exX86Chain exX86_pre
+
+example : (walk exX86Env (some exX86Mem) exX86Ctx).map
+      (fun f => (f.trust, f.ctx.ip, f.ctx.sp, f.ctx.get .x86 "ebp", f.ctx.get .x86 "ebx")) =
+    [(.context, 0x400050, 0x8000, some 0x8010, some 7), (.cfi, 0x400150, 0x8018, some 0x8030, some 7),
+     (.cfi, 0x400900, 0x8024, some 0x8030, some 0x99), (.fp, 0x400a00, 0x8038, some 0, none),
+     (.scan, 0x400400, 0x8040, none, none)] := by
+  decide +kernel
+
+/-! ### ARM64 (both context layouts): frame pointer → STACK CFI → scan — the F28 stack
+
+  The context frame is found … by the frame-pointer record at `0x8010`, which leaves `x29` (the
+  ALIAS name) in the validity set. Its caller `0x400120` is covered by
+  `.cfa: sp 32 + .ra: .cfa -8 + ^ x19: .cfa -16 + ^`: `x19 = 0x1234` from the frame, the frame pointer
+  (0, recorded as `x29`) is FORWARDED through the CFI frame (before the fix of F28 it was dropped),
+  the ptr-auth bits of the return-address word are stripped. The frame above has a zero frame
+  pointer and is found by scanning. -/
+
+def exArm64W : World := exWorld ".cfa: sp 32 + .ra: .cfa -8 + ^ x19: .cfa -16 + ^"
+def exArm64Mem : Mem := exMem 0x8000 8
+  [0, 0, 0, 0x400120, 0, 0, 0x1234, 0x00a5000000400500, 1, 0x400600, 0, 0, 0, 0]
+def exArm64Ctx : Ctx :=
+  { ip := 0x400300, sp := 0x8000, rest := [("fp", 0x8010), ("x19", 7)], valid := some ["pc", "sp", "fp", "x19"] }
+def exArm64Chain : List Exp :=
+  [ { ret := 0x400120, sp := 0x8020, fp := some 0, tech := "fp" },
+    { ret := 0x400500, sp := 0x8040, fp := some 0, tech := "cfi", regs := [("x19", 0x1234)] },
+    { ret := 0x400600, sp := 0x8050, fp := none, tech := "scan" } ]
+
+theorem exArm64_pre : ∀ a ∈ [Arch.arm64, Arch.arm64old],
+    PreW exArm64W [[]] (mkEnvW a .other exArm64W [[]] exArm64Mem) a .other exArm64Mem exArm64Ctx exArm64Chain = true := by
+  decide +kernel
+
+example : ∀ a ∈ [Arch.arm64, Arch.arm64old],
+    ∃ frames, walk (mkEnvW a .other exArm64W [[]] exArm64Mem) (some exArm64Mem) exArm64Ctx =
+      symbolise (mkEnvW a .other exArm64W [[]] exArm64Mem) (Frame.ofCtx exArm64Ctx .context) :: frames ∧
+    All2 (fun fr e => ∃ f', fr = symbolise (mkEnvW a .other exArm64W [[]] exArm64Mem) f' ∧
+      FrameIsA a (techTrust e) e f') frames exArm64Chain :=
+  fun a ha => walk_layout_mixed a .other exArm64W [[]] exArm64Mem exArm64Ctx exArm64Chain (exArm64_pre a ha)
+
+example : (walk (mkEnvW .arm64 .other exArm64W [[]] exArm64Mem) (some exArm64Mem) exArm64Ctx).map
+      (fun f => (f.trust, f.ctx.ip, f.ctx.sp, f.ctx.get .arm64 "fp", f.ctx.get .arm64 "x19")) =
+    [(.context, 0x400300, 0x8000, some 0x8010, some 7), (.fp, 0x400120, 0x8020, some 0, none),
+     (.cfi, 0x400500, 0x8040, some 0, some 0x1234), (.scan, 0x400600, 0x8050, none, none)] := by
+  decide +kernel
+
+example : (walk (mkEnvW .arm64old .other exArm64W [[]] exArm64Mem) (some exArm64Mem) exArm64Ctx).map
+      (fun f => (f.trust, f.ctx.ip, f.ctx.sp, f.ctx.get .arm64old "fp", f.ctx.get .arm64old "x19")) =
+    [(.context, 0x400300, 0x8000, some 0x8010, some 7), (.fp, 0x400120, 0x8020, some 0, none),
+     (.cfi, 0x400500, 0x8040, some 0, some 0x1234), (.scan, 0x400600, 0x8050, none, none)] := by
+  decide +kernel
+
+/-! ### ARM on iOS: scan → STACK CFI → frame pointer; the walk ends on a zero frame pointer -/
+
+def exArmW : World := exWorld ".cfa: sp 16 + .ra: .cfa -4 + ^ fp: .cfa -8 + ^"
+def exArmMem : Mem := exMem 0x8000 4
+  [1, 0x400120, 0, 0, 0x8020, 0x400500, 0, 0, 0, 0x400600, 0, 0, 0, 0]
+def exArmCtx : Ctx := { ip := 0x400300, sp := 0x8000, rest := [("fp", 0x4321)], valid := some ["pc", "sp"] }
+def exArmChain : List Exp :=
+  [ { ret := 0x400120, sp := 0x8008, fp := none, tech := "scan" },
+    { ret := 0x400500, sp := 0x8018, fp := some 0x8020, tech := "cfi" },
+    { ret := 0x400600, sp := 0x8028, fp := some 0, tech := "fp" } ]
+abbrev exArmEnv : Env := mkEnvW .arm .ios exArmW [[]] exArmMem
+
+theorem exArm_pre : PreW exArmW [[]] exArmEnv .arm .ios exArmMem exArmCtx exArmChain = true := by
+  decide +kernel
+
+example : ∃ frames, walk exArmEnv (some exArmMem) exArmCtx =
+      symbolise exArmEnv (Frame.ofCtx exArmCtx .context) :: frames ∧
+    All2 (fun fr e => ∃ f', fr = symbolise exArmEnv f' ∧ FrameIsA .arm (techTrust e) e f') frames exArmChain :=
+  walk_layout_mixed .arm .ios exArmW [[]] exArmMem exArmCtx exArmChain exArm_pre
+
+example : (walk exArmEnv (some exArmMem) exArmCtx).map
+      (fun f => (f.trust, f.ctx.ip, f.ctx.sp, f.instruction, f.ctx.get .arm "fp")) =
+    [(.context, 0x400300, 0x8000, 0x400300, none), (.scan, 0x400120, 0x8008, 0x40011e, none),
+     (.cfi, 0x400500, 0x8018, 0x4004fe, some 0x8020), (.fp, 0x400600, 0x8028, 0x4005fe, some 0)] := by
+  decide +kernel
+
+/-! ### MIPS32 and MIPS64: scan → STACK CFI → scan (MIPS32: the 4-word skip hides `0x400708`) -/
+
+def exM32W : World := exWorld ".cfa: $sp 16 + .ra: .cfa -4 + ^ $s0: .cfa -8 + ^"
+def exM32Mem : Mem := exMem 0x8000 4
+  [1, 0x400128, 0, 0, 0x77, 0x400508, 0x400708, 0, 0, 0, 0x400608, 0, 0, 0, 0]
+def exM32Ctx : Ctx := { ip := 0x400300, sp := 0x8000, rest := [("s0", 9)], valid := some ["pc", "sp", "s0"] }
+def exM32Chain : List Exp :=
+  [ { ret := 0x400128, sp := 0x8008, fp := none, tech := "scan" },
+    { ret := 0x400508, sp := 0x8018, fp := none, tech := "cfi", regs := [("s0", 0x77)] },
+    { ret := 0x400608, sp := 0x802c, fp := none, tech := "scan" } ]
+abbrev exM32Env : Env := mkEnvW .mips32 .other exM32W [[]] exM32Mem
+
+theorem exM32_pre : PreW exM32W [[]] exM32Env .mips32 .other exM32Mem exM32Ctx exM32Chain = true := by
+  decide +kernel
+
+example : ∃ frames, walk exM32Env (some exM32Mem) exM32Ctx =
+      symbolise exM32Env (Frame.ofCtx exM32Ctx .context) :: frames ∧
+    All2 (fun fr e => ∃ f', fr = symbolise exM32Env f' ∧ FrameIsA .mips32 (techTrust e) e f') frames exM32Chain :=
+  walk_layout_mixed .mips32 .other exM32W [[]] exM32Mem exM32Ctx exM32Chain exM32_pre
+
+example : (walk exM32Env (some exM32Mem) exM32Ctx).map
+      (fun f => (f.trust, f.ctx.ip, f.ctx.sp, f.instruction, f.ctx.get .mips32 "s0")) =
+    [(.context, 0x400300, 0x8000, 0x400300, some 9), (.scan, 0x400128, 0x8008, 0x400120, none),
+     (.cfi, 0x400508, 0x8018, 0x400500, some 0x77), (.scan, 0x400608, 0x802c, 0x400600, none)] := by
+  decide +kernel
+
+def exM64W : World := exWorld ".cfa: $sp 32 + .ra: .cfa -8 + ^ $s0: .cfa -16 + ^"
+def exM64Mem : Mem := exMem 0x8000 8
+  [1, 0x400128, 0, 0, 0x77, 0x400508, 2, 0x400608, 0, 0, 0, 0]
+def exM64Ctx : Ctx :=
+  { ip := 0x400300, sp := 0x8000, rest := [("s0", 9)], valid := some ["pc", "sp", "s0"], m64 := true }
+def exM64Chain : List Exp :=
+  [ { ret := 0x400128, sp := 0x8010, fp := none, tech := "scan" },
+    { ret := 0x400508, sp := 0x8030, fp := none, tech := "cfi", regs := [("s0", 0x77)] },
+    { ret := 0x400608, sp := 0x8040, fp := none, tech := "scan" } ]
+abbrev exM64Env : Env := mkEnvW .mips64 .other exM64W [[]] exM64Mem
+
+theorem exM64_pre : PreW exM64W [[]] exM64Env .mips64 .other exM64Mem exM64Ctx exM64Chain = true := by
+  decide +kernel
+
+example : ∃ frames, walk exM64Env (some exM64Mem) exM64Ctx =
+      symbolise exM64Env (Frame.ofCtx exM64Ctx .context) :: frames ∧
+    All2 (fun fr e => ∃ f', fr = symbolise exM64Env f' ∧ FrameIsA .mips64 (techTrust e) e f') frames exM64Chain :=
+  walk_layout_mixed .mips64 .other exM64W [[]] exM64Mem exM64Ctx exM64Chain exM64_pre
+
+example : (walk exM64Env (some exM64Mem) exM64Ctx).map
+      (fun f => (f.trust, f.ctx.ip, f.ctx.sp, f.instruction, f.ctx.get .mips64 "s0")) =
+    [(.context, 0x400300, 0x8000, 0x400300, some 9), (.scan, 0x400128, 0x8010, 0x400120, none),
+     (.cfi, 0x400508, 0x8030, 0x400500, some 0x77), (.scan, 0x400608, 0x8040, 0x400600, none)] := by
+  decide +kernel
+
 end MdModel.Walk
